@@ -83,6 +83,18 @@ func DefaultRetryIf(req *protocol.Request, resp *protocol.Response, err error) b
 	if req.IsBodyStream() {
 		return false
 	}
+	// ... which includes multipart parts given as readers: writing the request
+	// has consumed them, a second attempt would send empty parts
+	for _, f := range req.MultipartFiles() {
+		if f.Reader != nil {
+			return false
+		}
+	}
+	for _, f := range req.MultipartFields() {
+		if f.Reader != nil {
+			return false
+		}
+	}
 
 	if isIdempotent(req, resp, err) {
 		return true
